@@ -458,6 +458,10 @@ type use struct {
 // resolves and returns the <use> target content
 // wrapped in graphicContent field
 func (context *svgContext) resolveUse(node *cascadedNode, defs definitions) (*svgNode, error) {
+	if node.attrs["href"] == "" { // nothing is referenced
+		logger.WarningLogger.Printf("SVG: <use> without href")
+		return nil, nil
+	}
 	href, err := parseURL(node.attrs["href"])
 	if err != nil {
 		return nil, err
